@@ -319,6 +319,52 @@ class C04:
                     return False
         return True
 
+    # ---- T3b values that may be None because their producer may return None -------------
+    def _may_return_none(self, fn: ast.FunctionDef) -> bool:
+        if fn.returns is not None and ("Optional" in norm(fn.returns) or "None" in norm(fn.returns).split("[")[0] or "| None" in norm(fn.returns)):
+            return True
+        rets = [r for r in walk_local(fn) if isinstance(r, ast.Return)]
+        has_none = any(r.value is None or (isinstance(r.value, ast.Constant) and r.value.value is None) for r in rets)
+        has_val = any(r.value is not None and not (isinstance(r.value, ast.Constant) and r.value.value is None) for r in rets)
+        return has_none and has_val
+
+    def t3b_optional_results(self):
+        ctx = self.ctx
+        n = 0
+        for q, mod, fn in self.funcs():
+            carriers: Dict[str, str] = {}
+            for s_ in stmts_local(fn.body):
+                if isinstance(s_, ast.Assign) and len(s_.targets) == 1 and isinstance(s_.targets[0], (ast.Name, ast.Attribute)) and isinstance(s_.value, ast.Call) \
+                        and isinstance(s_.value.func, ast.Name):
+                    callee = self._callee(mod, s_.value.func.id)
+                    if callee is not None and self._may_return_none(callee):
+                        carriers[norm(s_.targets[0])] = s_.value.func.id
+                if isinstance(s_, ast.Assign) and len(s_.targets) == 1 and isinstance(s_.targets[0], (ast.Name, ast.Attribute)) and isinstance(s_.value, ast.BoolOp) \
+                        and isinstance(s_.value.op, ast.Or) and isinstance(s_.value.values[-1], ast.Constant) and s_.value.values[-1].value is None:
+                    carriers[norm(s_.targets[0])] = "`.. or None`"
+            if not carriers:
+                continue
+            for x in walk_local(fn):
+                if not isinstance(x, (ast.Name, ast.Attribute)) or not isinstance(getattr(x, "ctx", None), ast.Load):
+                    continue
+                t = norm(x)
+                if t not in carriers:
+                    continue
+                how = is_deref(x)
+                par = x.parent
+                if how is None and isinstance(par, ast.Call) and x in par.args and isinstance(par.func, ast.Name):
+                    callee = self._callee(mod, par.func.id)
+                    if callee is not None and not self._param_none_safe(callee, par.args.index(x)):
+                        how = f"passed to {par.func.id}(), which dereferences it"
+                if how is None:
+                    continue
+                n += 1
+                ok = guarded(fn, x, {t})
+                ctx.ob("T3b", f"{q}/maybe-None:{t}", ok,
+                       f"`{norm(par)[:60]}`: `{t}` was assigned from {carriers[t]}, which may be None, and is dereferenced ({how}) without a dominating "
+                       "None / truthiness / isinstance test", node=x, mod=mod)
+        ctx.extra["T3b_optional_result_derefs"] = n
+
     # ---- T4 the nullable page group --------------------------------------------------
     def t4_nullable_groups(self):
         ctx = self.ctx
@@ -422,16 +468,20 @@ class C04:
                         gi = self.rxs.info(pat, info["wrap"], info["flags"])
                         g = arg.slice.value
                         gid = g if isinstance(g, int) else gi["names"].get(g)
-                        if gid in gi["must"] and _group_is_digits(pat, gid, info["flags"]) and guarded(fn, arg.value, {arg.value.id}):
-                            ok, why = True, f"group {g!r} is \\d+ of a stdlib `re` match (same Unicode digit table as int()) and always participates"
+                        bound = _group_digit_bound(pat, gid, info["flags"])
+                        if gid in gi["must"] and bound is not None and bound <= 4300 and guarded(fn, arg.value, {arg.value.id}):
+                            ok, why = True, (f"group {g!r} is \\d{{..{bound}}} of a stdlib `re` match: same Unicode digit table as int(), always participates, and "
+                                             "short enough for int()'s digit limit")
+                        elif gid in gi["must"] and _group_is_digits(pat, gid, info["flags"]):
+                            why = "the group is an unbounded \\d+: int() raises ValueError beyond sys.get_int_max_str_digits() (4300) digits"
                     elif uses_regex_module:
                         why = "the match comes from the third-party `regex` module, whose \\d follows a newer Unicode table than int() accepts"
-                # (iii) dominated by .isdigit() on the same value (the value derives from the extractors' \d+ page group)
-                if not ok and self._isdigit_guard(fn, arg) and "page" in norm(arg):
-                    ok, why = True, "dominated by `.isdigit()` of the same page group (pages come from `\\d+` of the stdlib-re extractor patterns)"
+                # an isdigit() check is NOT enough: the digit run may exceed int()'s limit of 4300 digits
+                if not ok and not why and self._isdigit_guard(fn, arg):
+                    why = "an isdigit() check does not bound the length: int() raises ValueError beyond 4300 digits (sys.get_int_max_str_digits())"
                 ctx.ob("T5", f"{q}/{dotted(c.func)}({norm(arg)[:30]})", ok,
                        f"`{norm(c)[:50]}` can raise ValueError/TypeError on hostile text unless it is inside try/except ValueError, or its argument is a "
-                       f"must-participating stdlib \\d+ group, or an isdigit()-checked page: {why or 'none of these'}", node=c, mod=mod)
+                       f"must-participating stdlib \\d{{1,n}} group with n <= 4300: {why or 'none of these'}", node=c, mod=mod)
         ctx.extra["T5_conversions"] = n
 
     # ---- T6 constant-index subscripts ---------------------------------------------------
@@ -461,6 +511,27 @@ class C04:
                        f"constant index into `{bt[:40]}` (type {tb[:40]}): IndexError on an empty sequence unless a length / emptiness test dominates it",
                        node=s, mod=mod)
         ctx.extra["T6_subscripts"] = n
+
+    def t6b_loop_indices(self):
+        """an index that a while-loop moves must be bounded by the loop condition itself"""
+        ctx = self.ctx
+        n = 0
+        for q, mod, fn in self.funcs():
+            for w in [x for x in walk_local(fn) if isinstance(x, ast.While)]:
+                moved = {norm(a.target): a for a in stmts_local(w.body) if isinstance(a, ast.AugAssign) and isinstance(a.op, (ast.Add, ast.Sub))}
+                for sub in [x for x in ast.walk(w.test) if isinstance(x, ast.Subscript) and norm(x.slice) in moved]:
+                    idx = norm(sub.slice)
+                    base = norm(sub.value)
+                    n += 1
+                    conj = [norm(v) for v in (w.test.values if isinstance(w.test, ast.BoolOp) and isinstance(w.test.op, ast.And) else [w.test])]
+                    up = isinstance(moved[idx].op, ast.Add)
+                    bound = any(c in (f"{idx} < len({base})", f"len({base}) > {idx}") for c in conj) if up else any(
+                        c in (f"{idx} >= 0", f"{idx} > 0", f"0 <= {idx}", f"{idx} > -1") for c in conj)
+                    ctx.ob("T6", f"{q}/while:{base}[{idx}]", bound,
+                           f"`while ..{base}[{idx}]..` {'increments' if up else 'decrements'} `{idx}` in its body; the condition must bound it "
+                           f"({'`' + idx + ' < len(' + base + ')`' if up else '`' + idx + ' >= 0`'}) or the subscript runs off the sequence (IndexError at the end of the text)",
+                           node=w, mod=mod)
+        ctx.extra["T6b_loop_indices"] = n
 
     def _index_exception(self, q: str, fn, s: ast.Subscript, bt: str) -> bool:
         # one line of reason per recorded invariant
@@ -631,6 +702,52 @@ class C04:
                 return True  # the pattern parameter itself (a module constant at every call site)
         return False
 
+    # ---- T10 encoding input text -----------------------------------------------------------
+    def t10_encoding(self):
+        ctx = self.ctx
+        safe_handlers = {"surrogatepass", "replace", "ignore", "backslashreplace", "xmlcharrefreplace", "surrogateescape"}
+        n = 0
+        for q, mod, fn in self.funcs():
+            for c in [x for x in walk_local(fn) if isinstance(x, ast.Call) and isinstance(x.func, ast.Attribute) and x.func.attr in ("encode", "decode")]:
+                recv = c.func.value
+                t = self.typed.type_of(mod, recv) or ""
+                if c.func.attr == "encode" and t not in ("builtins.str", "str", ""):
+                    continue
+                if c.func.attr == "decode" and "bytes" not in t and t != "":
+                    continue
+                n += 1
+                handler = None
+                if len(c.args) >= 2 and isinstance(c.args[1], ast.Constant):
+                    handler = c.args[1].value
+                for k in c.keywords:
+                    if k.arg == "errors" and isinstance(k.value, ast.Constant):
+                        handler = k.value.value
+                in_try = False
+                cur = c
+                while cur is not fn:
+                    par = cur.parent
+                    if isinstance(par, ast.Try) and cur in par.body and any(h.type is None or any(x in norm(h.type) for x in ("UnicodeError", "UnicodeEncodeError", "UnicodeDecodeError", "ValueError", "Exception")) for h in par.handlers):
+                        in_try = True
+                    cur = par
+                src = norm(recv)
+                not_input = None
+                if "json_str" in src or "json.dumps" in src:
+                    not_input = "json.dumps output (ensure_ascii default: pure ASCII)"
+                elif src in ("regex", "e.regex") or src.startswith(("str(expressions)", "str(flags)")):
+                    not_input = "an extractor pattern / its repr, not document text"
+                elif src == "c" and q.endswith("convert_regex"):
+                    not_input = "a character of an extractor pattern"
+                if c.func.attr == "encode":
+                    ok = handler in safe_handlers or not_input is not None or in_try
+                else:
+                    # decoding a slice of bytes cut at arbitrary offsets can hit an invalid start/continuation byte whatever the surrogate policy
+                    ok = handler in ("replace", "ignore", "backslashreplace") or in_try or not_input is not None
+                ctx.ob("T10", f"{q}/{src[:30]}.{c.func.attr}()", ok,
+                       f"`{norm(c)[:60]}`: a str may contain lone surrogates, which the strict utf-8 codec refuses (UnicodeEncodeError); document text must be "
+                       f"encoded with a non-raising error handler ({'handler ' + repr(handler) if handler else not_input or ('inside try/except' if in_try else 'strict, unguarded')})",
+                       node=c, mod=mod)
+        ctx.extra["T10_codec_calls"] = n
+
     # ---- T9 keyword splat agreement ---------------------------------------------------------
     def t9_metadata_keys(self):
         ctx = self.ctx
@@ -686,6 +803,25 @@ def _comp_bound(node: ast.AST, name: str) -> bool:
     return False
 
 
+def _group_digit_bound(pattern: str, gid: int, flags: int) -> Optional[int]:
+    """n if the group is \\d{a,n} with finite n, else None."""
+    pat, _ = dedupe_group_names(pattern)
+    tree = rx.parse(pat, flags)
+    from .c18 import _find_group
+
+    sub = _find_group(tree, gid)
+    if sub is None:
+        return None
+    items = list(sub)
+    if len(items) != 1 or str(items[0][0]) != "MAX_REPEAT":
+        return None
+    lo, hi, body = items[0][1]
+    body = list(body)
+    if lo >= 1 and hi != rx.MAXREPEAT and len(body) == 1 and str(body[0][0]) == "IN" and [(str(o), str(a)) for o, a in body[0][1]] == [("CATEGORY", "CATEGORY_DIGIT")]:
+        return hi
+    return None
+
+
 def _group_is_digits(pattern: str, gid: int, flags: int) -> bool:
     pat, _ = dedupe_group_names(pattern)
     tree = rx.parse(pat, flags)
@@ -709,9 +845,10 @@ def run(ctx: Ctx):
         "(default resolvers) and annotate_citations, every site of these risk classes is enumerated and must be discharged by a listed idiom: "
         "T1 explicit raise (configuration-only guard, table-agreement unreachability, or re-raise in a handler); T2 unchecked regex match result; "
         "T3 dereference of a regex group that does not participate in every match (group participation computed on the pattern's syntax tree, "
-        "with the ^(?:..)/(?:..)$ wrapper match_on_tokens adds); T4 reads of the group the code itself sets to None (placeholder page); T5 "
+        "with the ^(?:..)/(?:..)$ wrapper match_on_tokens adds), T3b dereference of a value assigned from an eyecite function that may return None; T4 reads of the group the code itself sets to None (placeholder page); T5 "
         "int()/float() conversions; T6 constant-index subscripts on sequences; T7 literal-key reads of token.groups against all generated patterns; "
-        "T8 dynamic text inside a pattern or replacement template; T9 metadata keys splatted into Metadata(**..).  NOT decided: exceptions from C "
+        "T8 dynamic text inside a pattern or replacement template; T9 metadata keys splatted into Metadata(**..); T10 encoding/decoding of document "
+        "text with a non-raising error handler (lone surrogates).  NOT decided: exceptions from C "
         "extensions on hostile bytes, MemoryError/RecursionError, regex engine limits."
     )
     ctx.trusted = ["the checker", "mypy types", "re._parser", "str/int/regex documented failure modes as encoded in the rule idioms"]
@@ -719,12 +856,16 @@ def run(ctx: Ctx):
     C = C04(ctx)
     ctx.guard(C.t1_raises)
     ctx.guard(C.t2_t3)
+    ctx.guard(C.t3b_optional_results)
     ctx.guard(C.t4_nullable_groups)
     ctx.guard(C.t5_conversions)
     ctx.guard(C.t6_indexing)
+    ctx.guard(C.t6b_loop_indices)
     ctx.guard(C.t7_group_keys)
     ctx.guard(C.t8_escaping)
     ctx.guard(C.t9_metadata_keys)
+    ctx.guard(C.t10_encoding)
+    ctx.floor("T10", 3)
     ctx.floor("T1", 4)
     ctx.floor("T2", 8)
     ctx.floor("T3", 5)
